@@ -201,6 +201,58 @@ pub fn next_layer_circ(b: &serde_json::Value, lookups: &[p3_lookup::Lookups<F>])
     Ok(nl_finish(&prev, &cfg))
 }
 
+/// The honest circuit proof offered to the next-layer path together with a verifying key that
+/// differs from the proof's own `stark_common` in one word of the preprocessed commitment (what a
+/// verifier holding its own key and receiving a proof over the wire has). The circuit is built for
+/// the key, public inputs are packed by the backend, the circuit is run.
+pub fn next_layer_circ_foreign_key(b: &serde_json::Value, lookups: &[p3_lookup::Lookups<F>]) -> Result<Vec<(String, crate::kit::CircV)>, String> {
+    fn bump_first_number(v: &mut serde_json::Value, delta: i64) -> bool {
+        match v {
+            serde_json::Value::Number(n) => {
+                let Some(x) = n.as_u64() else { return false };
+                let y = if delta > 0 { x + 1 } else if x > 0 { x - 1 } else { return false };
+                *v = serde_json::Value::from(y);
+                true
+            }
+            serde_json::Value::Array(a) => a.iter_mut().any(|x| bump_first_number(x, delta)),
+            serde_json::Value::Object(o) => o.values_mut().any(|x| bump_first_number(x, delta)),
+            _ => false,
+        }
+    }
+    let mut bsp: p3_circuit_prover::batch_stark_prover::BatchStarkProof<NlCfg> = de(b, "proof")?;
+    bsp.stark_common.lookups = lookups.to_vec();
+    let mut key_holder = None;
+    for delta in [1i64, -1] {
+        let mut b2 = b.clone();
+        let c = &mut b2["proof"]["stark_common"]["commitment"];
+        if c.is_null() || !bump_first_number(c, delta) {
+            continue;
+        }
+        if let Ok(mut other) = de::<p3_circuit_prover::batch_stark_prover::BatchStarkProof<NlCfg>>(&b2, "proof") {
+            other.stark_common.lookups = lookups.to_vec();
+            key_holder = Some(other);
+            break;
+        }
+    }
+    let Some(key_holder) = key_holder else { return Ok(vec![]) };
+    let pis: Vec<Vec<F>> = de(b, "pis")?;
+    let fri: crate::kit::FriSc = de(b, "fri")?;
+    let cfg = match crate::kit::guard_circ("make_config", || NlCfg { config: std::sync::Arc::new(make_config(&fri)), params: vparams(&fri) }) {
+        Ok(c) => c,
+        Err(_) => return Ok(vec![]),
+    };
+    let prev: p3_recursion::RecursionInput<'_, NlCfg, p3_recursion::BatchOnly> = p3_recursion::RecursionInput::BatchStark {
+        proof: &bsp,
+        common_data: &key_holder.stark_common,
+        table_public_inputs: pis,
+    };
+    Ok(nl_finish(&prev, &cfg)
+        .into_iter()
+        .filter(|(ep, _)| !ep.ends_with("#fingerprint"))
+        .map(|(ep, v)| (format!("{ep}@foreign-verifying-key"), v))
+        .collect())
+}
+
 // ---- `verify_fri_circuit` called on its own, with malformed *arguments* ----
 
 /// Builds the arguments of `verify_fri_circuit` for the honest uni-STARK proof the way
